@@ -85,7 +85,7 @@ CHECKS = {
          "Symmetric bugs inside prost itself are not visible.", "3.7"),
  "C30": ("law-engine", "exploration", "exhaustive enumeration of query texts (token sequences and value strings in grammar positions)",
          "All sequences of 1-4 tokens over 36 grammar tokens with every blank pattern, and all strings of <= 3 symbols over 42 symbols in 21 grammar positions: parse(to_lucene(parse(q))) == parse(q) for every accepted q. Failing cases are attributed to root-cause clauses and the shortest witness per clause is reported.",
-         "A change that only adds failing cases to an already failing root-cause clause is reported only if its witness is shorter (stated limitation).", "3.8"),
+         "One witness (the shortest failing text) per root-cause clause; in addition the number of failing cases per clause must not exceed the ceiling listed for that clause in known_findings.json (clause_ceilings), so a change that only adds failing cases to an already failing clause is reported too.", "3.8"),
  "C31": ("law-engine", "exploration", "exhaustive enumeration of leaf queries, boolean compositions and ranges x events against an independent evaluator and compositional identities",
          "2,419 leaf queries x 78 events against an independent evaluator over plain values; 48 boolean templates over a 34-leaf pool and 10 field-group templates (m(NOT q) = not m(q), AND/OR/juxtaposition/precedence); range law [l TO u] = >=l and <=u over 6 fields x 10^2 bounds x 4 bracket forms — all through compiled match_datadog_query.",
          "Behaviour the property leaves open (null/array values, `?` in globs, number-vs-string mixes) is counted, not judged.", "3.8"),
